@@ -16,6 +16,15 @@ THEOREMS = {
             "orders_only_initial_suppliers", "shares_noalt", "shares_alt", "need_eq", "gap_nonneg"],
     "C07": ["lost_is_sum_of_active", "lost_ignores_inactive", "delta_eq", "delta_range", "delta_zero_unaffected",
             "arb_is_max", "excess_loss_rejected", "capacity_nonneg", "eventsPre_delta"],
+    "C01": ["init_at_equilibrium", "equilibrium_step", "equilibrium_step_needs_capital_nonneg", "equilibrium_forever", "equilibrium_loop"],
+    "C08": ["rebuild_split", "rebuild_total_industry", "rebuild_total", "rebuild_split_house", "rebuild_total_house",
+            "only_rebuilding_sectors", "only_rebuilding_sectors_house", "rebuild_presented", "rebuild_presented_house",
+            "settle_nonneg", "settle_exact", "settle_on_grid", "settle_le", "settle_le_first", "settle_zero", "damage_eq",
+            "rebuild_antitone_reach"],
+    "C13": ["conv_eq", "conversion_uniform", "reexpression_invariant", "capacity_homogeneous", "production_homogeneous",
+            "overprod_homogeneous", "deliveries_homogeneous", "orders_homogeneous_same_branch", "gapOpen_homogeneous",
+            "deltaCap_homogeneous"],
+    "C18": ["psi_one_params", "psi_one_step", "psi_one_run", "alt_share_eq_fixed_share", "alt_eq_noalt", "alt_ne_noalt_zero_capacity"],
     "C14": ["alpha_bounds", "alpha_increase_only_if_scarce", "alpha_increase_amount", "alpha_no_increase_when_met",
             "alpha_drift_to_base"],
 }
@@ -25,6 +34,10 @@ MODULES = {pid: [f"Boario.Properties.{pid}"] for pid in THEOREMS}
 
 # scenario streams: (stream name, number of scenarios quick, thorough)
 STREAMS = {
+    "C01": [("eventfree", 40, 400)],
+    "C08": [("rebuild", 30, 300), ("multi", 10, 100)],
+    "C13": [("units", 24, 200)],
+    "C18": [("shocked", 12, 120), ("shortage", 6, 60), ("eventfree", 6, 60)],
     "C03": [("shortage", 24, 300), ("shocked", 16, 200)],
     "C04": [("shocked", 24, 300), ("shortage", 16, 200)],
     "C05": [("shocked", 12, 200), ("shortage", 8, 150), ("crash", 10, 150), ("starve", 8, 60), ("mild", 8, 100)],
@@ -35,6 +48,10 @@ STREAMS = {
 
 # phases whose correspondence obligations can fail this property's check
 PHASES = {
+    "C01": ["events_pre", "overprod", "production", "distribute", "events_post", "orders"],
+    "C08": ["events_pre", "events_post"],
+    "C13": ["events_pre", "events_post"],
+    "C18": ["production", "orders"],
     "C03": ["production"],
     "C04": ["distribute"],
     "C05": ["distribute"],
@@ -45,8 +62,19 @@ PHASES = {
 
 # per-step oracles (names in harness.oracles.PER_STEP) and per-run oracles
 STEP_ORACLES = {pid: [pid] for pid in ("C03", "C04", "C05", "C06", "C07", "C14")}
+STEP_ORACLES.update({"C08": ["C08"], "C09": ["C09"], "C10": ["C10"], "C11": ["C11", "C08"]})
+
+# per-run oracles, construction obligations, paired-run oracles (names resolved in harness/runner.py)
+RUN_ORACLES = {"C01": ["c01"], "C05": ["c05_run"], "C07": ["c07_capital"], "C08": ["c08_init"], "C11": ["c11_run"]}
+INIT_OBLIGATIONS = {"C01": ["mkparams"], "C07": ["mkparams"], "C08": ["trackerinit"], "C13": ["trackerinit"], "C18": ["mkparams"]}
+PAIRED = {"C10": ["c10_prefix"], "C11": ["c11_order"], "C13": ["c13_units"], "C18": ["c18_variants", "c18_orders"],
+          "C19": ["c19_shift"], "C17": ["c17_determinism"]}
 
 NONTRIVIAL = {
+    "C01": ("sparse", "a scenario whose table has an unused input, a zero-output industry, an infinite inventory, or psi = 1 (every step counted)"),
+    "C08": ("ledger moves", "a step in which a reconstruction ledger changes"),
+    "C13": ("emf != mf", "a step of a scenario with an event whose monetary factor differs from the model's"),
+    "C18": ("shocked", "a step of a shocked paired run"),
     "C03": ("production.shortage", "a step in which some input binds or capacity is below demand"),
     "C04": ("rationing", "a step in which production is below total demand for some supplier"),
     "C05": ("distribute.update", "a step in which inventories really change (or the run crashes)"),
@@ -62,6 +90,14 @@ _NOTE = ("Trusted: Lean kernel; the hand-written model and theorem statements; t
          "Not verified: float rounding, NumPy/pandas primitives, overflow.")
 
 CLAIMS = {
+    "C01": {"text": "Theorems init_at_equilibrium, equilibrium_step, equilibrium_forever (induction over steps), equilibrium_loop: for every balanced non-negative table with non-negative value added, of any size and sparsity (zero-output industries, unused inputs), and every accepted configuration, the event-free run reproduces the equilibrium exactly in the rational model and never rejects, crashes or fails; equilibrium_step_needs_capital_nonneg shows the capital hypothesis is necessary. mkParams and all six phases are compared with the code on event-free runs.",
+            "note": _NOTE, "technique": "Lean 4 theorems (fixed point + induction) + correspondence of construction and of every phase on event-free runs"},
+    "C08": {"text": "Theorems rebuild_total/_split (creation, any number of rebuilding sectors), rebuild_presented, settle_* (one ledger cell: non-negative, exact up to half a quantum, antitone on the grid), damage_eq, rebuild_antitone_reach (any sequence of deliveries), only_rebuilding_sectors; tracker construction and the ledger phases compared per step. Hypothesis: every (rebuilding sector, affected industry) pair has a supplier (known finding F13 otherwise).",
+            "note": _NOTE, "technique": "Lean 4 theorems + correspondence of EventTracker construction and ledger updates"},
+    "C13": {"text": "Theorems conversion_uniform, reexpression_invariant (same ledgers for the same event in any unit), and homogeneity of capacity, production, overproduction, deliveries, orders (same closeness branch), inventory gap and capacity-loss share. Partial: the closeness tests use a fixed absolute tolerance and the ledgers a fixed decimal quantum, so whole-run scaling is exact only up to those constants; that residue is checked on paired runs of the real code (other units, scale factors), not proved.",
+            "note": _NOTE, "technique": "Lean 4 theorems (partial, see text) + correspondence of tracker construction + paired runs across units and scales"},
+    "C18": {"text": "Theorems psi_one_params (both classes get identical parameters when psi = 1 and the restoration time is one step, hence psi_one_step/_run), alt_share_eq_fixed_share and alt_eq_noalt (uniform non-zero relative capacity), alt_ne_noalt_zero_capacity (boundary witness). Bit-identity of the implementation (x1.0 exact in IEEE-754) is checked on paired runs, not proved.",
+            "note": _NOTE, "technique": "Lean 4 theorems + paired runs (base vs psi=1, alt vs noalt) compared bitwise / at 1e-9"},
     "C03": {"text": "Theorems production_nonneg / _le_demand / _le_capacity / _le_stock_support / _eq_min3 / _tight / _branches_agree hold for every table size, parameter value and state (Lean 4, no bound); the production phase of the model is checked against calc_production on every explored step.",
             "note": _NOTE, "technique": "Lean 4 theorems on an exact-rational model + per-step correspondence of calc_production"},
     "C04": {"text": "Theorems deliveries_sum / _same_ratio_* / _le_asked / fd_unmet_eq / fd_unmet_range / reb_prod_eq for every demand matrix with any number of rebuilding blocks; the full delivery matrix (hook) is compared cell by cell on every explored step.",
